@@ -471,7 +471,8 @@ PLAN['C15'] = {
 
 
 ALLKINDS = ['GetRoots', 'GetStump', 'Prove', 'Verify', 'GetLeafPosition', 'GetLeafHashPositions', 'GetHash',
-            'GetMissingPositions', 'GetNumLeaves', 'GetTreeRows', 'Write', 'VerifyPartialProof']
+            'GetMissingPositions', 'GetNumLeaves', 'GetTreeRows', 'Write', 'VerifyPartialProof',
+            'Verify/remember', 'VerifyPartialProof/remember']
 
 
 def maplock(name, readers, nblocks, nsites, kinds, unlocked=(), maxcalls=2, emit=False, **kw):
